@@ -233,6 +233,17 @@ theorem C14_scope_restores {f : SsaWalk.Frames → SsaWalk.Frames} (h : SsaWalk.
 theorem C14_scoped_add (fs : SsaWalk.Frames) (hne : fs ≠ []) (v : Var) (n : Nat) :
     (fs.add v n).get = VMap.set fs.get v n := SsaWalk.frames_get_add fs hne v n
 
+/-- **the SSA form does not depend on the order of the phi statements of a block** (the hash order of `variables_written`):
+    permuting the phi variables of every block leaves every version number, every converted statement and every list of phi
+    arguments unchanged (also a C17 fact) -/
+theorem C14_phi_order_irrelevant (c : SsaBuild.PCfg) (P P' : SsaBuild.Phis) (idom : Nat → Nat)
+    (hperm : ∀ i, (P i).Perm (P' i)) (hP : ∀ i, (P i).Nodup)
+    (hlt : ∀ j, 0 < j → j < c.blocks.length → idom j < j) (hpar : c.params.Nodup)
+    (st : SsaWalk.St) (h : SsaWalk.run c P idom = .ok st) :
+    ∃ st', SsaWalk.run c P' idom = .ok st' ∧ (∀ s, SsaWalk.verOf st.log s = SsaWalk.verOf st'.log s) ∧
+      st.done = st'.done ∧ st.args = st'.args :=
+  SsaWalk.run_perm c P P' idom hperm hP hlt hpar st h
+
 /-- non-vacuity of the walk theorems: `x = 1; while (..) { x = x + 1 }; use x` — the walk converts it, numbering the
     definitions 0 (entry), 1 (phi), 2 (loop body) -/
 def exP : SsaBuild.PCfg :=
